@@ -203,6 +203,14 @@ Section Exec.
     mkF [ ([112; 111; 110; 103; 111; 50] (* pongo2 *), CV (as_value (VMap [ ([118; 101; 114; 115; 105; 111; 110] (* version *), VStr pongo2_version) ]))) ]
         (ctx_update globals ctx) true 0 execid (tpl_chain t).
 
+  (* a filter registered outside the package (the harness's probe) has no model: Unmod;
+     a name that is not registered at all is an error *)
+  Definition apply_filter_se (name : str) (x p : value) : fres :=
+    match assoc_get name filter_impl with
+    | Some _ => apply_filter name x p
+    | None => if str_in name (cfg_filters (se_cfg se)) then Unmod else Err 5
+    end.
+
   Definition is_ident_key (k : str) : bool :=
     negb (Nat.eqb (length k) 0) && forallb (fun b => is_alpha b || is_digit b || (b =? 95)) k.
 
@@ -320,7 +328,7 @@ Section Exec.
                              | Some pe => eval f st pe
                              | None => Ok (as_value VNil, st)
                              end);
-            do r <- apply_filter name v p;
+            do r <- apply_filter_se name v p;
             apply_chain f st1 r rest
         end
     end
@@ -942,7 +950,7 @@ Section Exec.
         | [] => Ok (v, st)
         | (name, param) :: rest =>
             do '(p, st1) <- (match param with Some pe => eval f st pe | None => Ok (as_value VNil, st) end);
-            do r <- apply_filter name v p;
+            do r <- apply_filter_se name v p;
             apply_tag_chain f st1 r rest
         end
     end
